@@ -13,6 +13,23 @@ PROPS = {
     },
 }
 
+PROPS["C15"] = {
+    "engines": ["K"],
+    "bounds": [],
+    "outside_bounds": [],
+    "stubs": [],
+    "assumptions": [],
+    "explanation": "",
+}
+PROPS["C11"] = {
+    "engines": ["K"],
+    "bounds": [],
+    "outside_bounds": [],
+    "stubs": [],
+    "assumptions": [],
+    "explanation": "",
+}
+
 HOOK_COMMITS = ["3b45d39", "83997c5"]
 
 # Every property that has no entry in PROPS is listed with its reason.
